@@ -18,7 +18,7 @@
   `Model/Seqlock.lean`) and the orderings are those of the model's default annotation `SL.Ann` — i.e. the
   writer program that `SL.wStep` executes (`loadGen`, `store1`, `fence`, `copy`, `store2`) is the program the
   code runs.  It returns `()`, leaves `self` unchanged, consumes exactly one input, never panics and never
-  gets stuck.  (`unsafe { &*self.generation }` evaluates through the dictionary's `deref` rule to the
+  gets stuck.  (the block `{ &*self.generation }` evaluates through the dictionary's `deref` rule to the
   atomic cell `generation`; the `#[cfg(clock_bound_verif)]` statements are dropped by the translator.)
 -/
 import ClockBound.Proofs.RsGen
